@@ -77,18 +77,19 @@ Theorem ms_executed_signature_valid :
 Proof.
   move=> ops signer now wallet pid to amount wf sig_ok rec st' f t a ES w p' Hw Hp Hids Hreq S m.
   have [w0 [p0 [Hw0 [Hp0 [Hf [Ht [Ha [_ [Hnd [Hlen [_ Hjust]]]]]]]]]]] :=
-    ms_execution_justified ES.
+    ms_execution_justified ops signer now wallet pid to amount wf sig_ok rec st' f t a ES.
   rewrite Hw in Hw0. case: Hw0 => Ew; subst w0. rewrite Hp in Hp0. case: Hp0 => Ep; subst p0.
   split=> //; split=> //; split=> //.
   have Hin : forall tid, In tid (mp_votes p') -> (0 < tid <= Z.of_nat n)%Z.
   { move=> tid Htid. have [[o out] [_ Hc]] := Hjust tid Htid.
     case: o Hc => [? ? ? ? ?|sg nw wl pd t0 a0 wf0 s0 r0] //= [_ [_ [_ [_ [_ [_ [_ [Htid' _]]]]]]]].
-    exact: (Hids sg tid (ms_tid_of_In Htid')). }
+    exact: (Hids sg tid (ms_tid_of_In sg tid (mw_signers w) Htid')). }
   have Huniq : uniq S by apply: ms_votes_uniq => // tid /Hin; lia.
   have Hall : all (fun k => 0 < k <= n)%N S by apply: ms_votes_range.
   have Hsize : (size (sk :: cs) <= size S)%N.
-  { rewrite /S size_map. apply/leP. move: Hlen. rewrite Hreq. move=> /Nat2Z.inj ->. exact: le_n. }
-  have [Hall' _] := C34_threshold_signature_of_T_valid_shares_verifies (g2:=g2) (H:=Hm) e_linl e_linr ids_nz sk cs m.
+  { rewrite /S size_map. apply/leP. have E : length (mp_votes p') = size (sk :: cs) by apply: Nat2Z.inj; rewrite Hlen Hreq.
+    have -> : size (mp_votes p') = length (mp_votes p') by []. rewrite E. exact: le_n. }
+  have [Hall' _] := @C34_threshold_signature_of_T_valid_shares_verifies F G1 G2 GT g2 M Hm e e_linl e_linr n ids_nz sk cs m.
   exact: (Hall' S Huniq Hall Hsize).
 Qed.
 
